@@ -245,8 +245,28 @@ def frontLine (which : String) (src : Option IDL × String) : Sx :=
       else tagged "front" [.atom "ok", .atom "ok", .atom "t", .atom "t"]
     | .ok => tagged "front" [.atom "ok", .atom "ok", .atom "t", .atom (if which == "derive" then "-" else "t")]
 
+/-- `cargo_build_many` on a list of files: file by file, the first failure ends the process (the output file
+    of the failing definition has been created empty, later files are not touched) -/
+def frontManyLine (srcs : List (Option IDL × String)) : Sx :=
+  let rec go (l : List (Option IDL × String)) (failed : Option String) (acc : List Sx) : Option String × List Sx :=
+    match l with
+    | [] => (failed, acc.reverse)
+    | (i?, _) :: rest =>
+      let good : Bool := match i? with
+        | some i => verdict i != .panic
+        | none => false
+      match failed with
+      | some f => go rest (some f) (Sx.list [.atom "f", .atom (if good then "f" else "-")] :: acc)
+      | none =>
+        if good then go rest none (Sx.list [.atom "t", .atom "t"] :: acc)
+        else go rest (some (if i?.isSome then "panic" else "err")) (Sx.list [.atom "f", .atom "-"] :: acc)
+  let (failed, outs) := go srcs none []
+  tagged "frontmany" (.atom (failed.getD "ok") :: outs)
+
 def modelLine (c : Sx) : Option Sx :=
   match c with
+  | .list [.atom "helper-batch"] => some (tagged "helper-batch" [.atom "ok"])
+  | .list (.atom "frontmany" :: srcs) => (srcs.mapM parseSrc).map frontManyLine
   | .list [.atom "compile", src] => (parseSrc src).map compileLine
   | .list [.atom "front", .atom which, src] => (parseSrc src).map (frontLine which)
   | .list [.atom "probe", src, root, .list (.atom "path" :: path), j] => do
@@ -349,6 +369,8 @@ def predC08 (c o : Sx) : String :=
     | _, _ => "fail unparsable-case"
   | .list (.atom "compile" :: _) => "ok"
   | .list (.atom "front" :: _) => "ok"
+  | .list (.atom "frontmany" :: _) => "ok"
+  | .list [.atom "helper-batch"] => "ok"
   | _ => "fail unparsable-case"
 
 def predC09 (c o : Sx) : String :=
@@ -376,6 +398,18 @@ def predC09 (c o : Sx) : String :=
     | some (i?, _), .list [.atom "front", _, .atom status, .atom emitted, .atom same] =>
       verdictOf (P_C09_front i? status (emitted == "t") (if same == "-" then none else some (same == "t")))
     | _, _ => "fail unexpected-front-observation"
+  | .list (.atom "frontmany" :: srcs) =>
+    (match srcs.mapM parseSrc, o with
+     | some ps, .list (.atom "frontmany" :: .atom status :: outs) =>
+       verdictOf (P_C09_frontmany (ps.map (·.1)) status
+         (outs.map fun x => match x with
+           | .list [.atom e, .atom s] => (e == "t", if s == "-" then none else some (s == "t"))
+           | _ => (false, none)))
+     | _, _ => "fail unexpected-frontmany-observation")
+  | .list [.atom "helper-batch"] =>
+    -- the batch is not a replayable input: a failure here shows as a disagreement with the model; the
+    -- `frontmany` cases carry the concrete file lists
+    "ok"
   | .list (.atom "probe" :: _) => "ok"
   | .list (.atom "call" :: _) => "ok"
   | .list (.atom "raw" :: _) => "ok"
